@@ -138,24 +138,78 @@ func c20trunc(s string, n int) Ev {
 	return ev
 }
 
-func c20nat(c *Ctx, h *Hist, u []string) {
+// c20nat: the whole comparison table.  order 0 computes it row by row; order 1 visits
+// the pairs in a scrambled order (the same operand recurs with other calls in between),
+// so that a result depending on earlier calls shows up as a wrong table entry.
+func c20nat(c *Ctx, h *Hist, u []string, order int) {
 	uj := make([][]int, len(u))
 	for i, s := range u {
 		uj[i] = bytesJ(s)
 	}
-	h.Emit(Ev{"op": "new", "kind": "natu", "u": uj})
-	for i, a := range u {
-		ev := Ev{"op": "row", "kind": "natrow", "i": i + 1, "row": []int{}}
+	h.Emit(Ev{"op": "new", "kind": "natu", "u": uj, "order": order})
+	n := len(u)
+	tab := make([][]int, n)
+	panics := make([]string, n)
+	for i := range tab {
+		tab[i] = make([]int, n)
+	}
+	seen := make([][]bool, n)
+	for i := range seen {
+		seen[i] = make([]bool, n)
+	}
+	cell := func(i, j int) {
+		ev := Ev{}
 		guard(ev, func() {
-			row := make([]int, len(u))
-			for j, b := range u {
-				row[j] = mstr.CompareNatural(a, b)
+			v := mstr.CompareNatural(u[i], u[j])
+			if seen[i][j] && tab[i][j] != v {
+				v = 99 // two calls with the same arguments disagree: no table entry is right
 			}
-			ev["row"] = row
+			tab[i][j], seen[i][j] = v, true
 		})
+		if p, _ := ev["panic"].(string); p != "" {
+			panics[i] = p
+		}
+	}
+	if order == 0 {
+		for i := 0; i < n; i++ {
+			for j := 0; j < n; j++ {
+				cell(i, j)
+			}
+		}
+	} else if n > 0 {
+		// a full-period walk over the n*n pairs: x -> x + step (mod n*n), step coprime to n*n;
+		// every third call repeats the left operand of two calls ago with a fresh right operand
+		total := n * n
+		step := total/2 + 1
+		for gcdInt(step, total) != 1 {
+			step++
+		}
+		x := 0
+		prev := [2]int{-1, -1}
+		for t := 0; t < total; t++ {
+			i, j := x/n, x%n
+			cell(i, j)
+			if t%3 == 2 && prev[0] >= 0 {
+				cell(prev[0], j) // recomputed: must agree with its own visit
+			}
+			if t%3 == 0 {
+				prev = [2]int{i, j}
+			}
+			x = (x + step) % total
+		}
+	}
+	for i := 0; i < n; i++ {
+		ev := Ev{"op": "row", "kind": "natrow", "i": i + 1, "row": ints(tab[i]), "panic": panics[i]}
 		h.Emit(ev)
 	}
 	h.Emit(Ev{"op": "end", "kind": "natend"})
+}
+
+func gcdInt(a, b int) int {
+	for b != 0 {
+		a, b = b, a%b
+	}
+	return a
 }
 
 func natUniverse() []string {
@@ -198,7 +252,7 @@ func natUniverse2() []string {
 
 func replayC20(c *Ctx, h *Hist, ops []Op) {
 	if len(ops) > 0 && gets(ops[0], "kind") == "natu" {
-		c20nat(c, h, strsOfAny(ops[0]["u"]))
+		c20nat(c, h, strsOfAny(ops[0]["u"]), geti(ops[0], "order"))
 		return
 	}
 	for _, op := range ops {
@@ -238,8 +292,9 @@ func runC20(c *Ctx) {
 		c.NewHist("tlc-bits-fenced").Emit(c20bits(in.Pat, 0, "lo"))
 		c.NewHist("tlc-bits-fenced").Emit(c20bits(in.Pat, 0, "hi"))
 	}
-	c20nat(c, c.NewHist("natural-table"), natUniverse())
-	c20nat(c, c.NewHist("natural-table-highbytes"), natUniverse2())
+	c20nat(c, c.NewHist("natural-table"), natUniverse(), 0)
+	c20nat(c, c.NewHist("natural-table-highbytes"), natUniverse2(), 0)
+	c20nat(c, c.NewHist("natural-table-scrambled"), natUniverse(), 1)
 	// words that cancel or combine arithmetically: w and -w, w and ^w, equal words,
 	// single bits at the word ends - in adjacent 8-byte words at every block offset
 	for i := 0; i < c.Pick(300, 6000); i++ {
